@@ -113,29 +113,77 @@ func (w *world) runConsumer(x *consumer) {
 			w.checkConsumerError(x, names[x.kind], err, ret)
 			return
 		}
-		rc := w.byVal[v]
+		rc := w.rcOfVal(v)
 		if rc == nil {
 			x.inCall = false
 			c.Fail("C10.W1.unknown-value", "%s returned a value the resolver never returned", names[x.kind])
 			return
 		}
+		// if the resolver handed out this pointer more than once, which call the
+		// consumer was given is not observable: the value-specific checks are skipped
+		shared := 0
+		for _, o := range w.calls {
+			if o.v == v {
+				shared++
+			}
+		}
 		// register the held reference before leaving the call (same atomic stretch as the return)
-		h.given = []*rcall{rc}
+		if shared == 1 {
+			h.given = []*rcall{rc}
+		}
 		h.addRet = ret
 		w.holders = append(w.holders, h)
 		x.inCall = false
-		if rc.rel > 0 && !w.invalidated(rc, ret) {
+		if shared == 1 && rc.rel > 0 && !w.invalidated(rc, ret) {
 			c.Fail("C10.W1.returned-released-value", "%s returned value %d, which had already been released although it was never invalidated", names[x.kind], rc.n)
 			return
 		}
 		c.S.Count("probe:consumer-got-value")
-		if x.kind == 2 && rc.rel > 0 {
+		if x.kind == 2 && shared == 1 && rc.rel > 0 {
 			x.mustFire = true
 		}
 		w.holdAndRelease(x, h, rel)
-		if x.kind == 2 && rc.rel > 0 && rc.relAt < h.relCalled {
+		if x.kind == 2 && shared == 1 && rc.rel > 0 && rc.relAt < h.relCalled {
 			x.mustFire = true
 		}
+	case 4:
+		// AddRefPromise (the mechanism behind Wait/Resolve), awaited later: an await
+		// that begins after the value was dropped must wait for the replacement
+		c.Descf("consumer %d: AddRefPromise, await later", x.id)
+		h := &holder{id: 1000 + x.id, consumer: true}
+		prom, ref := w.rc.AddRefPromise()
+		h.addRet = c.Tick()
+		w.holders = append(w.holders, h)
+		if c.S.PlanP(500) {
+			g := make(chan struct{})
+			w.gates = append(w.gates, g)
+			simrt.Recv1("refcountx.consumer-hold", g)
+		} else {
+			core.YieldN("refcountx.consumer-hold", c.S.Plan(6))
+		}
+		awaitInv := c.Tick()
+		x.inCall = true
+		v, err := prom.Await(ctx)
+		ret := c.Tick()
+		x.inCall = false
+		if err != nil {
+			w.checkConsumerError(x, "AddRefPromise.Await", err, ret)
+		} else if rc := w.rcOfVal(v); rc == nil {
+			c.Fail("C10.W1.unknown-value", "the promise of AddRefPromise returned a value the resolver never returned")
+		} else {
+			shared := 0
+			for _, o := range w.calls {
+				if o.v == v {
+					shared++
+				}
+			}
+			if shared == 1 && rc.rel > 0 && rc.relAt < awaitInv {
+				c.Fail("C10.W4.await-returned-dropped-value", "an await on the promise of AddRefPromise that began after value %d had been dropped (its release function ran) returned that value instead of waiting for the replacement", rc.n)
+			}
+			c.S.Count("probe:consumer-got-value")
+		}
+		h.relCalled = c.Tick()
+		ref.Release()
 	default:
 		w.runAccess(x, ctx)
 	}
@@ -147,7 +195,7 @@ func (w *world) runAccess(x *consumer, ctx context.Context) {
 	var lastN int
 	x.inCall = true
 	err := w.rc.Access(ctx, func(cbCtx context.Context, v *val) error {
-		rc := w.byVal[v]
+		rc := w.rcOfVal(v)
 		inv := &accessInv{n: len(x.invs) + 1, rc: rc, ctx: cbCtx, start: c.Tick()}
 		x.invs = append(x.invs, inv)
 		x.cbRunning = inv
